@@ -188,9 +188,9 @@ def family(tier='quick'):
     out.append(T('m:len_from_meta', 'MetaData M {\n    u32 BodyLength `len`,\n}\n\nroot packet Root {\n    BodyLength @lengthOf(Body),\n    Other Body,\n}\n\n' + AUX))
     out.append(T('m:cks_from_meta', 'MetaData M {\n    u32 Ck `ck`,\n}\n\nroot packet Root {\n    u8 a,\n    Ck @calculatedFrom("CRC32"),\n}\n'))
     # packet level
-    out.append(T('p:empty_file', ''))
-    out.append(T('p:only_comment', '// nothing here\n'))
-    out.append(T('p:only_ws', '\n\n   \n'))
+    out.append(T('p:empty_file', '', wellformed=False))
+    out.append(T('p:only_comment', '// nothing here\n', wellformed=False))
+    out.append(T('p:only_ws', '\n\n   \n', wellformed=False))
     out.append(T('p:dup_packet', 'root packet Root {\n    u8 a,\n}\n\npacket A {\n    u8 x,\n}\n\npacket A {\n    u16 y,\n}\n', [('dup-packet', 9, 11)]))
     out.append(T('p:dup_root_name', 'root packet Root {\n    u8 a,\n}\n\npacket Root {\n    u16 y,\n}\n', [('dup-packet', 5, 7)]))
     out.append(T('p:two_roots', 'root packet Root {\n    u8 a,\n}\n\nroot packet Second {\n    u16 y,\n}\n', [('multi-root', 5, 7)]))
